@@ -254,7 +254,7 @@ def K17_elimination_bounds(rep, flow: Flow, fqs=("f2_algebra.rref", "f2_algebra.
 
 
 def K15_junk_characters(rep, flow: Flow):
-    rep.rule("K15", "the Pauli-string parser rejects (raises on) every character that is not one of I, X, Y, Z - probed with the lower-case letters, digits, blanks and foreign letters, at the first, a middle and the last position of a generator - and a sign character anywhere but in front is never read as a Pauli", floor=20, exhaustive=True)
+    rep.rule("K15", "the Pauli-string parser rejects (raises on) every character that is not one of I, X, Y, Z - probed with the lower-case letters, digits, blanks and foreign letters, at the first, a middle and the last position of a generator - and a sign character anywhere but in front is never read as a Pauli; generators of different lengths are refused", floor=20, exhaustive=True)
     prog = flow.prog
     ce = CE(prog, max_steps=20_000_000)
     junk = ["x", "y", "z", "i", "A", "1", "0", " ", "_", "*", "Q", "+", "-"]
@@ -272,6 +272,22 @@ def K15_junk_characters(rep, flow: Flow):
                 continue
             got = {k: (v.d if isinstance(v, Mat) else v) for k, v in st.attrs.items() if k in ("R", "S", "phases")}
             rep.finding("K15", f"junk:{ch!r}:{pos}", f"stabilizer.py Stabilizer.__init__ accepts the generator {gen!r} (character {ch!r} at position {pos} is not a Pauli) and stores R = {got.get('R')}, S = {got.get('S')}, signs = {got.get('phases')}: an invalid request is served with a circuit for some other operator instead of being refused")
+    K15_ragged_lists(rep, flow)
+
+
+def K15_ragged_lists(rep, flow: Flow):
+    """generators of different lengths are refused (a shorter one is not padded, a longer one not cut)"""
+    prog = flow.prog
+    ce = CE(prog, max_steps=20_000_000)
+    for data, what in ((["XZZ", "ZX", "ZIX"], "a generator shorter than the first"), (["XZZ", "ZXII", "ZIX"], "a generator longer than the first"),
+                       (["XZZ", "-ZX", "ZIX"], "a signed generator shorter than the first"), (["XZ", "ZXI", "ZIX"], "a first generator shorter than the list")):
+        try:
+            st = _new_stabilizer(ce, prog, list(data))
+        except CERaise:
+            rep.ok("K15", 1, nontrivial=tuple(data), sample=f"{data}: rejected")
+            continue
+        got = {k: (v.d if isinstance(v, Mat) else v) for k, v in st.attrs.items() if k in ("R", "S", "phases")}
+        rep.finding("K15", f"ragged:{'/'.join(data)}", f"stabilizer.py Stabilizer.__init__ accepts the list {data} ({what}) and stores R = {got.get('R')}, S = {got.get('S')}: the request is answered for operators the caller never wrote")
 
 
 @raises_are_findings("K13")
@@ -553,6 +569,20 @@ def _k6_by_kernel_stub(rep, flow):
     for nq in (1, 2):
         for coef in itertools.product((0, 1), repeat=4 * nq):
             _k6_judge(rep, nq, coef, cs, verdict(nq, coef))
+    # an EMPTY kernel means that no layer exists: the search must say so (None), not hand out some layer
+    for nq in (1, 2):
+        calls = []
+
+        def stub0(*a, _n=nq, **k):
+            calls.append(1)
+            return Mat.zeros((0, 4 * _n))
+        ce.stubs = {ns[0].fq: stub0}
+        res0 = ce.call_func(f, [_eye(nq), Mat.zeros((nq, nq)), _graph(ce, prog, nq, [])], {})
+        if len(calls) == 1:
+            if res0 is None:
+                rep.ok("K6", 1, nontrivial=("empty-kernel", nq), sample=f"empty kernel on {nq} qubit(s): None")
+            else:
+                rep.finding("K6", f"empty-kernel:{nq}", f"find_local_clifford_layer.py find_local_clifford_layer: with an empty kernel (no solution of the linear system) the search returns {[m_.d for m_ in res0] if isinstance(res0, (list, tuple)) else res0!r} instead of None: 'no layer exists' is reported as a layer")
     # a set of FEWER operators than qubits (the property's "or fewer operators"): same verdicts, no exception
     for coef in itertools.product((0, 1), repeat=8):
         try:
